@@ -13,7 +13,8 @@ TRUSTED_EXTRA = ["props/GI2.v (C08 / C09 / C11 as statements about iterated impr
 IMPORTS = "C11_kalman"
 RULE = ("cases = static: Gaussian prior (Dw in 1..3) and N in 1..4 (quick) / 1..6 (thorough) linear-Gaussian observations with "
         "individual (M_i, b_i, Sigma_i), Dy in 1..3 with Dy != Dw included, a random permutation of the update order, the joint route "
-        "conditioning alternately by condition_on(Dw..Dw+Dy-1) and condition_on_explicit(-Dy..-1, 0..Dw-1); state "
+        "conditioning alternately by condition_on(Dw..Dw+Dy-1) and condition_on_explicit(-Dy..-1, 0..Dw-1), the factor route formed by "
+        "multiply / * / hadamard with and without update_full; state "
         "space: random (A, b, Q, C, d, R), Dz, Dx in 1..2, T in 1..4 (quick) / 1..12 (thorough); non-trivial = N >= 2 or "
         "T >= 2; distinct = SHA1 of the input")
 EXPLANATION = ("model: the three routes (sequential conditional transformation + condition_on_x, joint transformation + "
@@ -36,7 +37,9 @@ def gen_static(g, Dw, Dy, N):
             c["b"] = [[Fr(0)] * Dy]
         obs.append(dict(c=c, y=g.vec(Dy)))
     perm = list(range(N)); g.shuffle(perm)
-    return dict(scn="static", prior=prior, obs=obs, perm=perm, Dw=Dw, Dy=Dy, cls=cls, ctor=ctor)
+    # how the prior is combined with the product of the likelihood factors (route c): every public way of forming the product
+    return dict(scn="static", prior=prior, obs=obs, perm=perm, Dw=Dw, Dy=Dy, cls=cls, ctor=ctor,
+                prod=g.choice(["multiply", "mul", "hadamard", "hadamard_full", "multiply_full"]))
 
 
 def gen_batched(g, R, N, Dw, Dy):
@@ -186,7 +189,9 @@ def run_impl(d):
             p3 = c3.condition_on_x(jarr([o["y"]]))
         bc, _ = lin.impl_cond(batch_cond(obs))
         lik = bc.set_y(jarr([o["y"] for o in obs])).product()
-        m = lin.impl_pdfv(d["prior"]).multiply(lik)
+        pr = lin.impl_pdfv(d["prior"]); mode = d.get("prod", "multiply")
+        m = {"multiply": lambda: pr.multiply(lik), "mul": lambda: pr * lik, "hadamard": lambda: pr.hadamard(lik),
+             "hadamard_full": lambda: pr.hadamard(lik, update_full=True), "multiply_full": lambda: pr.multiply(lik, update_full=True)}[mode]()
         logev = np.asarray(m.log_integral()); p4 = m.get_density()
         obsP(ob, p1, "seq."); obsP(ob, p2, "perm."); obsP(ob, p3, "joint."); ob.add("log_evidence", logev); obsP(ob, p4, "factor.")
         for e in ev1:
